@@ -10,7 +10,7 @@ VERIFIES = (KH_VERIFY, ROOT_VERIFY, DELEG_VERIFY)
 
 
 def run(chk, prog):
-    chk.rules_live = ["R1", "R2", "R3", "R4", "R5", "R6", "R7", "R8", "R9", "R10", "R11", "R12"]
+    chk.rules_live = ["R1", "R2", "R3", "R4", "R5", "R6", "R7", "R8", "R9", "R10", "R11", "R12", "R13"]
     chk.explanation = (
         "Structural writer/reader rules over the editor: SignedRole is constructed only where its "
         "digest and length are computed from the very buffer that is written; snapshot/timestamp "
@@ -33,6 +33,9 @@ def run(chk, prog):
     r10_removal(chk, prog)
     r11_sign_order(chk, prog)
     r12_writes_all(chk, prog)
+    # R13: the signatures the editor attaches are of an algorithm the client's verifier checks with
+    from . import c01
+    c01.signer_verifier_agreement(chk, prog, "R13")
 
 
 def r1_signed_role(chk, prog):
@@ -525,6 +528,7 @@ def r12_writes_all(chk, prog):
         return
     chk.analysed_body(ctx.body)
     okb = ctx.ok_return_blocks()
+    tails = ctx.tail_result_calls()
     seen = set()
     for bb, t in ctx.calls(SR + "::<T>::write", "tough::editor::signed::SignedDelegatedTargets::write"):
         recv = ctx.origins.of_operand(t.args[0])
@@ -534,7 +538,11 @@ def r12_writes_all(chk, prog):
         pos = ctx.track_call(bb).pos_edges(0)
         if flds == {("delegated_targets",)}:
             continue
-        p = ctx.cfg.witness_path(okb, pos)
+        if bb in tails:
+            # the last write is the function's own result
+            chk.ok("R12", ctx.fn, "always-writes:" + "/".join(sorted(f[0] for f in flds if f)))
+            continue
+        p = ctx.cfg.witness_path(okb + tails, pos)
         chk.require(bool(pos) and p is None, "R12", ctx.fn, "always-writes:" + "/".join(sorted(f[0] for f in flds if f)),
                     "SignedRepository::write can return Ok without having written this role", ctx.site(bb), path=ctx.describe_path(p))
     chk.require({"root", "targets", "snapshot", "timestamp", "delegated_targets"} <= seen, "R12", ctx.fn, "writes-every-role",
@@ -546,7 +554,7 @@ def r12_writes_all(chk, prog):
     dpos = []
     for bb in dcalls:
         dpos.extend(ctx.track_call(bb).pos_edges(0))
-    p = ctx.cfg.witness_path(okb, dpos, starts=[e[1] for e in some]) if some else [0]
+    p = ctx.cfg.witness_path(okb + tails, dpos, starts=[e[1] for e in some]) if some else [0]
     chk.require(bool(some) and bool(dpos) and p is None, "R12", ctx.fn, "delegated-written-when-present",
                 "with delegated roles present, Ok can be returned without writing them", path=ctx.describe_path(p))
     dctx = async_body(prog, "tough::editor::signed::SignedDelegatedTargets::write")
